@@ -94,16 +94,38 @@ Qed.
 (* bignum and ratio keys (findings C16-hash-bignum-key-by-pointer / C16-hash-ratio-key-by-pointer, repaired by
    C16-5): separately allocated copies of one value are one key *)
 Definition e20 : Z := 100000000000000000000.
-Definition pool_big : list ref := [mkref (Big e20) 0; mkref (Big e20) 1; mkref (Rat 1 2) 2; mkref (Rat 1 2) 3; mkref (Big (e20 + 1)) 4].
+Definition pool_big : list tkey := map TRef [mkref (Big e20) 0; mkref (Big e20) 1; mkref (Rat 1 2) 2; mkref (Rat 1 2) 3; mkref (Big (e20 + 1)) 4].
 Definition ops_big : list hop := [HPut 0 1; HGet 1; HPut 1 2; HCount; HPut 2 7; HGet 3; HGet 4; HMap; HRem 3; HCount; HGet 2].
 Lemma table_bignum_key_by_value :
   t_run pool_big [] ops_big =
     [OVal 1; OGet (Some 1); OVal 2; ONum 1; OVal 7; OGet (Some 7); OGet None; OEntries [(0%nat, 2); (2%nat, 7)]; OBool true; ONum 1; OGet None] /\
   s_run pool_big (pool_test 1 pool_big) [] ops_big = t_run pool_big [] ops_big /\
-  simple_pool pool_big = true /\ pool_ok pool_big (pool_test 1 pool_big) = true.
+ pool_ok pool_big (pool_test 1 pool_big) = true.
 Proof. vm_compute. repeat split; reflexivity. Qed.
 
-Definition pool_flt : list ref := [mkref (Fix 5) 0; mkref (Flt FDouble 5 0) 1].
+(* signed-byte / unsigned-byte keys: the other numbers held by a pointer.  Separately allocated copies of one
+   value and type are one key; a signed and an unsigned byte of the same value, or a byte and the fixnum of its
+   value, are eql but different keys (the same defect as 5 and 5.0: finding
+   C16-hash-eql-numbers-are-different-keys), which puts such a pool outside the guard *)
+Definition pool_byt : list tkey :=
+  [TByt false 5 0; TByt false 5 1; TByt true 7 2; TByt true 7 3; TByt false (-256) 4; TByt false 0 5; TRef (mkref (Fix 9) 6)].
+Definition ops_byt : list hop := [HPut 0 1; HPut 1 2; HCount; HGet 0; HPut 2 3; HGet 3; HPut 4 8; HGet 5; HRem 1; HGet 0; HCount; HMap].
+Lemma table_byte_keys :
+  t_run pool_byt [] ops_byt =
+    [OVal 1; OVal 2; ONum 1; OGet (Some 2); OVal 3; OGet (Some 3); OVal 8; OGet None; OBool true; OGet None; ONum 2;
+     OEntries [(2%nat, 3); (4%nat, 8)]] /\
+  s_run pool_byt (pool_test 1 pool_byt) [] ops_byt = t_run pool_byt [] ops_byt /\
+  pool_ok pool_byt (pool_test 1 pool_byt) = true.
+Proof. vm_compute. repeat split; reflexivity. Qed.
+Definition pool_byt_mixed : list tkey := [TByt false 5 0; TByt true 5 1; TRef (mkref (Fix 5) 2)].
+Lemma table_byte_key_refuted :
+  t_run pool_byt_mixed [] [HPut 0 1; HGet 1; HGet 2; HPut 1 2; HCount] = [OVal 1; OGet None; OGet None; OVal 2; ONum 2] /\
+  s_run pool_byt_mixed (pool_test 1 pool_byt_mixed) [] [HPut 0 1; HGet 1; HGet 2; HPut 1 2; HCount] =
+    [OVal 1; OGet (Some 1); OGet (Some 1); OVal 2; ONum 1] /\
+  pool_coherent pool_byt_mixed (pool_test 1 pool_byt_mixed) = false /\ pool_equiv pool_byt_mixed (pool_test 1 pool_byt_mixed) = true.
+Proof. vm_compute. repeat split; reflexivity. Qed.
+
+Definition pool_flt : list tkey := map TRef [mkref (Fix 5) 0; mkref (Flt FDouble 5 0) 1].
 Lemma table_float_key_refuted :
   t_run pool_flt [] [HPut 0 1; HGet 1] = [OVal 1; OGet None] /\
   s_run pool_flt (pool_test 1 pool_flt) [] [HPut 0 1; HGet 1] = [OVal 1; OGet (Some 1)] /\
@@ -113,7 +135,7 @@ Proof. vm_compute. repeat split; reflexivity. Qed.
 (* a list key (formerly a host fault, finding C16-hash-list-key-faults, repaired by C16-4): every operation on
    it signals a type-error and leaves the table alone; the pool is inside the guard and the model's
    observations are the specification's *)
-Definition pool_lst : list ref := [mkref (Lst [Fix 1; Fix 2]) 0; mkref (Fix 7) 1; mkref (Lst [Fix 1; Fix 2]) 0].
+Definition pool_lst : list tkey := map TRef [mkref (Lst [Fix 1; Fix 2]) 0; mkref (Fix 7) 1; mkref (Lst [Fix 1; Fix 2]) 0].
 Definition ops_lst : list hop := [HPut 0 1; HGet 0; HPut 1 5; HRem 2; HCount; HGet 1; HMap].
 Lemma table_list_key_refused :
   t_run pool_lst [] ops_lst = [OTypeErr; OTypeErr; OVal 5; OTypeErr; ONum 1; OGet (Some 5); OEntries [(1%nat, 5)]] /\
@@ -145,7 +167,7 @@ Qed.
 (* a pool inside the table guard (two boxes of the same string, the same fixnum twice in one box, a symbol
    and a string of the same spelling, a character, nil) and a history with an overwrite through the other
    box, a removal, a clear; the model's observations, which by table_refines_map are the finite map's *)
-Definition ex_pool : list ref :=
+Definition ex_pool : list tkey := map TRef
   [mkref (Str [97]%N) 0; mkref (Str [97]%N) 1; mkref (Fix 1000) 2; mkref (Fix 1000) 2; mkref (Sym [97]%N) 3;
    mkref (Chr 97) 4; mkref Nil 5; mkref (Str [65]%N) 6].
 Definition ex_ops : list hop :=
